@@ -122,7 +122,7 @@ pub fn run(tier: Tier) -> ! {
     let sigma = ['a', 'あ', '-', '|', ' ', '/', '\\'];
     let tagpool: Vec<Option<&str>> = vec![None, Some("x"), Some("/"), Some("-"), Some("|"), Some(" "), Some("\\"), Some("a-b"), Some("あ"), Some("\u{3000}"), Some("a\tb")];
     // (a) untagged, all texts x all label vectors
-    let texts = gen::strings(&sigma, 1, tier.pick(4, 5));
+    let texts = gen::strings(&sigma, 1, tier.pick(5, 6));
     texts.par_iter().for_each(|text| {
         for labels in gen::vectors(3, text.len() - 1) {
             report(text, &labels, &vec![vec![]; text.len()]);
@@ -131,7 +131,7 @@ pub fn run(tier: Tier) -> ! {
     // (a') enriched alphabet at shorter length (low-byte look-alikes of the delimiters, non-ASCII
     // whitespace, a tab, every UTF-8 length), as text and as the tag of a one-character text
     let enriched = ['a', ' ', '/', '\\', '-', '|', 'Ġ', 'į', 'Ŝ', 'ĭ', 'ż', '\u{3000}', '\t', 'é', 'あ', '𠀋', '\u{85}'];
-    let texts_e = gen::strings(&enriched, 1, tier.pick(3, 3));
+    let texts_e = gen::strings(&enriched, 1, tier.pick(3, 4));
     texts_e.par_iter().for_each(|text| {
         for labels in gen::vectors(3, text.len() - 1) {
             report(text, &labels, &vec![vec![]; text.len()]);
